@@ -19,7 +19,7 @@ from spil import Sid, conf, SpilException, WriteToPaths, GetFromPaths, FindInPat
 
 CONFIG = envstr("VF_CONFIG", "local")
 ENTITIES = ["h/a/x/v1/m", "h/a/x/v1/b", "h/a/x/v2/m", "h/a/x/v1/g", "h/s/q1/v1/c"]
-SEARCHES = ["h/a/x/*/*", "h/a/x/v1/y", "h/a/x/v1/m", "h/a/**", "h/a/x/>/m", "h/*/**/c,m", "h/a/x/v9/m", "h/a/x/*", "h/*", "h/a/x/v1/*?ext=y"]
+SEARCHES = ["h/a/x/*/*", "h/a/x/v1/y", "h/a/x/v1/m", "h/a/**", "h/a/x/>/m", "h/*/**/c,m", "h/a/x/v9/m", "h/a/x/*", "h/*", "h/a/x/v1/*?ext=y", "h/a/x/>/y", "h/a/x,*/v1/m"]
 if envstr("VF_ENTITIES", ""):         # another configuration: its own entities, searches, and the types it configures without a Getter
     ENTITIES = envstr("VF_ENTITIES", "").split(";")
     SEARCHES = envstr("VF_SEARCHES", "").split(";")
@@ -43,7 +43,7 @@ def _build(d0: int, d1: int, d2: int):
         w.create(Sid(e))
     for i, d in ((0, d0), (1, d1), (2, d2)):
         if d:
-            data = {KEYS[d % 2]: VALS[d % 4]}
+            data = {KEYS[d % 2]: VALS[(d // 2) % 4]}
             w.set(Sid(ENTITIES[i]), **data)
     globstub.UNIVERSE[:] = list(memfs.FS.keys())
 
@@ -68,7 +68,7 @@ def _expected(sid, attrs, enc) -> dict:
     return data
 
 
-D0, D1, D2 = envint("VF_D0", 1), envint("VF_D1", 2), envint("VF_D2", 0)
+D0, D1, D2 = envint("VF_D0", 1), envint("VF_D1", 5), envint("VF_D2", 0)      # entity 0: comment='x', entity 1: author=0 (falsy), entity 2: nothing
 A1, E1 = envint("VF_A1", 0), envint("VF_E1", 0)
 _FS0 = None
 
